@@ -453,7 +453,18 @@ class Arch:
                 box = [v]
                 a[k] = box                               # mutable container: the archive must keep a snapshot
                 D[k] = [v]
-                boxes.append(box)
+                if ctx.bool('late'):
+                    boxes.append(box)                    # mutated after all writes
+                else:
+                    box.append('mutated after store')    # mutated at once: later writes must not pick the change up
+                    try:
+                        back = a[k]                      # and a value read back is the reader's own copy
+                        if type(back) is list:
+                            back.append('mutated after read')
+                    except (PathPruned, Inconclusive):
+                        raise
+                    except Exception:
+                        pass
             elif w == 2:
                 try:
                     del a[k]
@@ -466,6 +477,8 @@ class Arch:
                 D[k] = v
         for box in boxes:
             box.append('mutated after store')
+        # reader placement 'same handle'
+        self.contents(ctx, a, D, {'op': 'same-handle'}, prop='C04', label='same-handle')
         hows = ('ctor', 'state', 'copy', 'pickle', 'early')
         if self.cfg.get('how'):
             how = self.cfg['how']
@@ -516,7 +529,13 @@ class Arch:
             ctx.check(sa == sb, 'C04:settings', dict(info, kind='state differs: %s vs %s' % (sorted(sa.items(), key=str), sorted(sb.items(), key=str))))
         # writes through the new handle are seen by the old one (same store)
         k, v = self.K(ctx), self.V(ctx)
-        b[k] = v
+        try:
+            b[k] = v
+        except (PathPruned, Inconclusive):
+            raise
+        except Exception as e:
+            ctx.check(False, 'C04:same-store', dict(info, kind='writing through the new handle raised %s' % type(e).__name__))
+            return
         D[k] = v
         self.contents(ctx, a, D, dict(info, pre='written through the new handle'), prop='C04', label='same-store')
 
